@@ -183,7 +183,7 @@ def bucket_part(chk, build, factor):
         assert t[0] == "tuple"
         obs = f"({show_term(t[1])}, {ops}, {show_term(t[2])})"
         exprs.append(f"(bucket_run {cfg} {init} 0 {ops}, check_C15_bucket {cfg} 0 {obs})")
-    model = coq_eval("C15b", BUCKET_IMPORTS, exprs)
+    model = coq_eval(f"C15bp{os.getpid()}", BUCKET_IMPORTS, exprs)
     distinct = set()
     for k, (c, iv, mv) in enumerate(zip(cases, impl, model)):
         it = parse_term(iv)
@@ -246,6 +246,9 @@ def run(chk):
         "random configurations incl. zero, sub-millisecond, huge (2^61 s, 2^62 s), never-representable and "
         "Duration::MAX intervals, refill/max/initial up to usize::MAX, with advance/check/bump sequences (half of "
         "them in the router's check-then-bump protocol). non-trivial = at least one refill or one rejected check")
+    import shutil
+    for tag in ("C15b", "C15f"):
+        shutil.rmtree(os.path.join(WORK, f"{tag}p{os.getpid()}"), ignore_errors=True)
     chk.coverage["exhaustive_part"] = "bucket configs over {0,1,2}^3 x initial {None,0,1,3}, op sequences of fixed small length"
     return chk.finish(trusted_base=TRUSTED)
 
